@@ -27,6 +27,8 @@ from vlib import boot
 from vlib.harness import findings as findings_mod
 
 NPROC = int(os.environ.get("VERIF_NPROC", "16"))
+# scratch runs (seeded changes applied to a worktree named by VERIF_REPO) write their evidence and found replays elsewhere
+OUT = os.environ.get("VERIF_OUT") or boot.VERIF
 CASE_REAL_TIMEOUT = float(os.environ.get("VERIF_CASE_TIMEOUT", "240"))
 
 
@@ -334,7 +336,7 @@ def replay_dir(pid):
 
 
 def save_replay(pid, sig, case, msg):
-    d = replay_dir(pid)
+    d = os.path.join(OUT, "replays", pid)
     os.makedirs(d, exist_ok=True)
     slug = "".join(ch if ch.isalnum() else "_" for ch in sig)[:70]
     h = hashlib.sha1(json.dumps(case, sort_keys=True, default=str).encode()).hexdigest()[:8]
@@ -501,7 +503,7 @@ def write_evidence(check, tier, seed, total, parts, t0, nviol, sig_report, error
         cov["error"] = error
     ev = {"property_id": pid, "tier": tier, "seed": seed, "level": check.LEVEL, "coverage": cov,
           "assumptions": list(check.ASSUMPTIONS), "wall_s": round(time.time() - t0, 2), "violations": max(nviol, 0)}
-    d = os.path.join(boot.VERIF, "evidence")
+    d = os.path.join(OUT, "evidence")
     os.makedirs(d, exist_ok=True)
     with open(os.path.join(d, pid + ".json"), "w") as f:
         json.dump(ev, f, indent=1, default=str)
